@@ -620,4 +620,68 @@ func c16Limits(c *Check) {
 			c.Result(ok, "C16.I", "limits passed to "+fn.Name(), fnName(cs.Caller), p.site(cs.Instr), "(MaxInflight[Msgs], MaxInflightBytes) taken from the Config or the current tracker", fmt.Sprintf("(%s, %s)", sanitizeKey(a0.Key()), sanitizeKey(a1.Key())))
 		}
 	}
+	// a peer's window is created with its Progress (new peer, or every peer at a leadership change)
+	// and never replaced afterwards: what is in flight must stay counted until it is acknowledged
+	inflF := p.Field("tracker", "Progress", "Inflights")
+	reset := p.Method("raft", "raft", "reset")
+	initProgress := p.Method("confchange", "Changer", "initProgress")
+	if inflF != nil && reset != nil && initProgress != nil {
+		n := 0
+		for _, st := range p.StoresTo(inflF) {
+			if st.Whole {
+				// a struct copy carries the same window; a whole-record store of a freshly built
+				// literal creates one
+				ld, isLd := st.Val.(*ssa.UnOp)
+				if !isLd {
+					continue
+				}
+				if _, fromLit := ld.X.(*ssa.Alloc); !fromLit {
+					continue
+				}
+				if tgt, isAl := st.Addr.(*ssa.Alloc); isAl && !pointerEscapes(tgt) {
+					continue
+				}
+			}
+			top := st.Fn
+			for top.Parent() != nil {
+				top = top.Parent()
+			}
+			// a by-value copy handed to the application (Status, WithProgress) is not a tracker record:
+			// the copy's address goes nowhere
+			if fa, isFA := st.Addr.(*ssa.FieldAddr); isFA {
+				if al, isAl := fa.X.(*ssa.Alloc); isAl && !pointerEscapes(al) {
+					c.OkTrivial("C16.I", "store Progress.Inflights on a private copy", fnName(st.Fn), p.site(st.Instr), "a by-value copy whose address does not escape", "")
+					continue
+				}
+			}
+			n++
+			ok := calledOnlyFrom(p, top, map[*ssa.Function]bool{reset: true, initProgress: true}, 0)
+			c.Result(ok, "C16.I", "store Progress.Inflights", fnName(st.Fn), p.site(st.Instr), "windows are created only in raft.reset (leadership change) and Changer.initProgress (new peer)", "")
+		}
+		c.Result(n >= 1, "C16.I", "window creation sites", "-", "-", "reset and initProgress create windows", fmt.Sprint(n))
+	}
+}
+
+// pointerEscapes: the allocation's address is used as a value somewhere (stored, put in a map or
+// slice, passed, returned, captured) rather than only dereferenced through field/element access.
+func pointerEscapes(al *ssa.Alloc) bool {
+	if al.Referrers() == nil {
+		return true
+	}
+	for _, ref := range *al.Referrers() {
+		switch x := ref.(type) {
+		case *ssa.FieldAddr, *ssa.IndexAddr:
+			// access path
+		case *ssa.UnOp:
+			// load of the whole value
+		case *ssa.Store:
+			if x.Val == ssa.Value(al) {
+				return true
+			}
+		case *ssa.DebugRef:
+		default:
+			return true
+		}
+	}
+	return false
 }
